@@ -236,6 +236,7 @@ type Hist struct {
 	force           *Node // picks go to this container (sandwich)
 	forceNeedle     *MVal
 	hintIndex       int
+	recentTrees     []any        // Go trees passed as arguments earlier in this history
 	prevDirty       map[int]bool // what the latest mutating operation was allowed to change
 	lastPath        []seg        // path of the latest GetTF
 	repeatPath      []seg
